@@ -4,23 +4,18 @@
   the logical remaining input `rest` only.  Every primitive is the Go primitive with
   "`fill()` until the bytes needed are there" read as "look at `rest`".
 
-  What is still tracked although it looks like buffer state:
-  * `readEOF`, `readErr` — whether a primitive has asked for bytes beyond the end of the input
-    (`lexer.go` resets `readEOF` after a backslash; the flags steer the EOF position hack of `rune`);
-  * `buf = some (len(p.bs), p.bsp)` once the end of input has been seen: from then on the buffer
-    of the real parser is the same under every schedule (it holds exactly the bytes that were unread
-    at that moment), and `rune` consults `len(p.bs) == 0` for its `p.bsp = 1` hack;
-  * ghosts used only to *state* the client protocol under which chunked = unchunked:
-    `look` — a lower bound on the number of unread bytes that are certainly in the buffer
-    whatever the schedule (raised by `peek`/`peekTwo`, lowered by consumption),
+  Ghost fields, used only to *state* the client protocol under which chunked = unchunked:
+    `look`   — a lower bound on the number of unread bytes that are certainly in the buffer whatever
+               the schedule (raised by `peek`/`peekTwo`, lowered by consumption);
     `behind` — the bytes of the multi-byte rune just read while they are certainly still in the
-    buffer right before the cursor (what `newLit` re-slices),
-    `ok` — cleared by the first operation that steps outside the client protocol under which the
-    chunked byte source provably agrees with this machine (the protocol is *defined* as
-    "`ok` is still set at the end of the run"):
-      - `peekTwo` while no unread byte is certainly buffered (`look = 0`) and input remains,
-      - `zshNumRange` and the stop-word test (they look at whatever the buffer happens to hold),
-      - `rune` deciding about backquote unescaping after a backslash without a buffered byte,
+               buffer right before the cursor (what `newLit` re-slices);
+    `halted` — set when the stop-word test fired (`p.r = runeEOF` with input left): the lexer is
+               expected to stop reading;
+    `ok`     — cleared by the first operation that steps outside the protocol (the protocol is
+               *defined* as "`ok` is still set at the end of the run"):
+      - `rune`, `peek`, `peekTwo`, `zshNumRange`, the stop-word test after the stop-word test fired,
+      - `zshNumRange` at the end of input (Go panics on `p.bs[p.bsp:]`), and on a numeric range whose closing `>` is more than 64 bytes away
+        (the real function gives up after 64 buffered bytes: residual finding C07-zshnumrange-long),
       - `newLit` of a multi-byte rune that is not the rune just read,
       - `nextPos` after an error, `endLit` with fewer literal bytes than the current rune is wide.
   Core Lean only.
@@ -36,9 +31,6 @@ structure LSt where
   col : Nat
   r : Nat
   w : Nat
-  readEOF : Bool
-  readErr : Bool
-  buf : Option (Nat × Nat)  -- (len(p.bs), p.bsp) once known
   lit : Option (List Byte)  -- reversed, as in L2
   openBq : Nat
   openBqDbl : Nat
@@ -47,27 +39,21 @@ structure LSt where
   stopPat : List Byte
   look : Nat                -- ghost
   behind : Option (List Byte) -- ghost (reversed)
+  halted : Bool             -- ghost
   ok : Bool                 -- ghost
 deriving Repr
 
 namespace LSt
 
 def init (input : List Byte) (stopPat : List Byte := []) : LSt :=
-  { rest := input, consumed := 0, line := 1, col := 1, r := 0, w := 0, readEOF := false,
-    readErr := false, buf := none, lit := none, openBq := 0, openBqDbl := 0, lastBqEsc := 0,
-    err := none, stopPat, look := 0, behind := none, ok := true }
-
-/-- a `fill()` call made when the reader has nothing more to deliver -/
-def fillE (a : LSt) : LSt :=
-  if a.readEOF || a.r == runeEOF then a
-  else if a.readErr then { a with buf := some (a.rest.length, 0) }
-  else { a with readErr := true, readEOF := true, buf := some (a.rest.length, 0) }
+  { rest := input, consumed := 0, line := 1, col := 1, r := 0, w := 0,
+    lit := none, openBq := 0, openBqDbl := 0, lastBqEsc := 0,
+    err := none, stopPat, look := 0, behind := none, halted := false, ok := true }
 
 /-- `p.bsp++` over a byte that is there -/
 def consume (a : LSt) : LSt :=
   match a.rest with
-  | _ :: t => { a with rest := t, consumed := a.consumed + 1, look := a.look - 1,
-                       buf := a.buf.map fun (bl, bp) => (bl, bp + 1) }
+  | _ :: t => { a with rest := t, consumed := a.consumed + 1, look := a.look - 1 }
   | [] => a
 
 def consumeN : Nat → LSt → LSt
@@ -79,13 +65,12 @@ def litPush (a : LSt) (bs : List Byte) : LSt :=
   | none => a
   | some l => { a with lit := some (bs.reverse ++ l) }
 
-/-- forget which bytes lie behind the cursor: done by every operation that may refill the buffer -/
-def forget (a : LSt) : LSt := { a with behind := none }
+/-- forget which bytes lie behind the cursor, and leave the protocol if the lexer was told to
+    stop: done by every operation that may refill the buffer -/
+def forget (a : LSt) : LSt := { a with behind := none, ok := a.ok && !a.halted }
 
 /-- the state effect of `peek()` -/
-def peekEff0 (a : LSt) : LSt :=
-  let a := if a.rest.isEmpty then a.fillE else a
-  { a with look := max a.look 1 }
+def peekEff0 (a : LSt) : LSt := { a with look := max a.look 1 }
 
 def peekEff (a : LSt) : LSt := a.forget.peekEff0
 
@@ -95,14 +80,8 @@ def peek (a : LSt) : Nat × LSt :=
   | [] => (runeSelf, a)
   | b :: _ => (b.toNat, a)
 
-/-- the state effect of `peekTwo()`; inside the protocol only when a byte is certainly buffered
-    (or nothing is left) -/
-def peekTwoEff0 (a : LSt) : LSt :=
-  let okv := a.ok && (decide (a.look ≥ 1) || a.rest.isEmpty)
-  let a := match a.rest with
-    | _ :: _ :: _ => a
-    | _ => a.fillE
-  { a with look := max a.look 2, ok := okv }
+/-- the state effect of `peekTwo()` -/
+def peekTwoEff0 (a : LSt) : LSt := { a with look := max a.look 2 }
 
 def peekTwoEff (a : LSt) : LSt := a.forget.peekTwoEff0
 
@@ -113,10 +92,13 @@ def peekTwo (a : LSt) : Nat × Nat × LSt :=
   | [b] => (b.toNat, runeSelf, a)
   | b :: c :: _ => (b.toNat, c.toNat, a)
 
-/-- the *intended* `zshNumRange`: scan the logical input -/
+/-- `zshNumRange`: scan the logical input; inside the protocol when a positive answer is already
+    decided by the first 64 bytes, and never once `p.r` is `runeEOF` (the cursor is past the buffer
+    and `p.bs[p.bsp:]` panics) -/
 def zshNum (a : LSt) : Bool × LSt :=
-  let a := a.peekEff
-  (St.zshScan a.rest, { a with ok := false })
+  let a := a.forget
+  let yes := St.zshScan a.rest == St.Scan.yes
+  (yes, { a with ok := a.ok && a.r != runeEOF && (!yes || St.zshScan (a.rest.take 64) == St.Scan.yes) })
 
 def nextPos (a : LSt) : Int × Nat × Nat :=
   ((a.consumed : Int) - (a.w : Int), a.line, a.col)
@@ -128,12 +110,7 @@ def pos (a : LSt) : (Int × Nat × Nat) × LSt :=
 def errPass (a : LSt) (e : Err) : LSt :=
   match a.err with
   | some _ => a
-  | none =>
-    { a with err := some e, rest := [], r := runeEOF, w := 1, behind := none,
-             consumed := match a.buf with
-               | some (bl, bp) => a.consumed - bp + bl + 1
-               | none => 0,
-             buf := a.buf.map fun (bl, _) => (bl, bl + 1) }
+  | none => { a with err := some e, rest := [], r := runeEOF, w := 1, behind := none, consumed := 0 }
 
 inductive Step where
   | done (a : LSt)
@@ -145,8 +122,6 @@ def runeTail (b : Byte) (bq : Nat) (a : LSt) : LSt :=
   { a with w := 1, r := b.toNat }
 
 def runeAfterEsc (b : Byte) (bq : Nat) (a : LSt) : Step :=
-  let a := { a with readEOF := false,
-                    ok := a.ok && (a.openBq == 0 || a.look ≥ 1 || a.rest.isEmpty) }
   match a.rest with
   | c :: _ =>
     if a.openBq > 0 && ((bq < a.openBq && St.bquoteEscaped c) || (bq < a.openBqDbl && c == 34)) then
@@ -155,7 +130,9 @@ def runeAfterEsc (b : Byte) (bq : Nat) (a : LSt) : Step :=
   | [] => .done (runeTail b bq a)
 
 def runeBackslash (b : Byte) (bq : Nat) (a : LSt) : Step :=
-  if a.r == 92 then runeAfterEsc b bq a
+  if a.r == 92 then
+    let (_, a) := a.peek
+    runeAfterEsc b bq a
   else
     let (pk, a) := a.peek
     if pk == 10 then .done { a.consume with w := 1, r := escNewl }
@@ -177,7 +154,6 @@ def runeAscii (b : Byte) (bq : Nat) (a : LSt) : Step :=
 def runeDecode (a : LSt) : LSt :=
   let (r, w) := decodeRune a.rest
   let a := { a with r }
-  let a := if r == runeError && !fullRune a.rest then a.fillE else a
   let bytes := a.rest.take w
   let a := a.litPush bytes
   let a := a.consumeN w
@@ -188,12 +164,10 @@ def runeDecode (a : LSt) : LSt :=
     else a
   { a with w }
 
+/-- `p.bsp = len(p.bs)+1; p.r = runeEOF; p.w = 1` — idempotent -/
 def runeAtEOF (a : LSt) : LSt :=
-  let a := a.fillE
-  let a := match a.buf with
-    | some (0, bp) => { a with consumed := a.consumed - bp + 1, buf := some (0, 1) }
-    | _ => a
-  { a with r := runeEOF, w := 1 }
+  if a.r == runeEOF then { a with w := 1 }
+  else { a with consumed := a.consumed + 1, r := runeEOF, w := 1 }
 
 /-- a byte `b` is at the cursor -/
 def runeBody (b : Byte) (bq : Nat) (a : LSt) : Step :=
@@ -241,16 +215,16 @@ def endLit (a : LSt) : List Byte × LSt :=
   if a.r == runeEOF || a.r == escNewl then (l.reverse, { a with lit := none })
   else ((l.drop a.w).reverse, { a with lit := none, ok := a.ok && decide (a.w ≤ l.length) })
 
-/-- the *intended* stop-word test: the bytes of the rune just read followed by the logical input -/
+/-- the stop-word test for the rune `r`: its encoding followed by the logical input starts with
+    the stop word.  Nothing matches once `p.r` is `runeEOF` (the cursor is past the buffer). -/
 def stopAt (a : LSt) (r : Nat) : Bool × LSt :=
-  let own : Option (List Byte) :=
-    if r < 0x80 then some [UInt8.ofNat r] else a.behind.map List.reverse
-  let a := { a with ok := false }
-  match own with
-  | none => (false, a)
-  | some o =>
-    if a.stopPat.isPrefixOf (o ++ a.rest) then (true, { a with r := runeEOF, w := 1 })
-    else (false, a)
+  let enc := if r ≤ 0x10FFFF then encodeRune r else []
+  let k := enc.length
+  let a := a.forget
+  if k > 0 ∧ a.stopPat.length ≥ k ∧ a.stopPat.take k = enc ∧ a.r ≠ runeEOF
+      ∧ (a.stopPat.drop k).isPrefixOf a.rest = true then
+    (true, { a with r := runeEOF, w := 1, halted := true })
+  else (false, a)
 
 end LSt
 
